@@ -191,13 +191,14 @@ PROPS['C05'] = {
 }
 PROPS['C06'] = {
     'level': 'exploration',
-    'vx': [{'unit': 'agent', 'functions': ['StunRequestState :: poll', 'StunRequestState :: new', 'cancel_retransmissions', 'impl StunAgent :: send', 'mut_request_state']}],
+    'vx': [{'unit': 'agent', 'functions': ['StunRequestState :: poll', 'StunRequestState :: new', 'cancel_retransmissions', 'impl StunAgent :: send', 'mut_request_state', 'theorem_default_schedule_numbers']}],
     'kx': ['k06_request_poll'],
     'bx': ['c06'],
     'rule': 'Verus VCs of StunRequestState::{new,poll} for schedules of any length; BX for configure_timeout and the agent-level minimum.',
     'proved': ['StunRequestState::new: UDP schedule [500,1000,2000,4000,8000,16000] + 8000 ms, TCP [] + 39500 ms',
                'poll: WaitUntil(last_send + schedule[i]) iff now is earlier, state unchanged (so polling early again gives the same t); due => SendData with last_send := now, i := i+1; past last_send + last_timeout after the final transmission => TimedOut; nothing transmitted once send_cancelled',
-               'cancel_retransmissions sets exactly send_cancelled of that transaction'],
+               'cancel_retransmissions sets exactly send_cancelled of that transaction',
+               'theorem_default_schedule_numbers: with the defaults that new installs and the due rule of poll, on-time service transmits at 0, 0.5, 1.5, 3.5, 7.5, 15.5, 31.5 s and times out at 39.5 s; each interval doubles'],
     'bounded': ['configure_timeout (iterator map/fold over Duration): BX exhaustive over rto x retransmits 0..=8 x last timeout grid', 'StunAgent::poll minimum over transactions / event at t (incl. the generic law: after WaitUntil(t) an earlier poll repeats t without an event, a poll at or after t yields one): BX with 1..3 concurrent transactions, exhaustive small-scope histories + random ones'],
     'trusted': _AGENT_TRUST + _KX_TRUST,
 }
